@@ -99,7 +99,7 @@ Proof.
   intros D bs. unfold naked_num. destruct (preferFloat D); [destruct (pfloat L bs); discriminate|].
   destruct (Verif.C09.Model.parseUint64_simple _) as [f ok]. destruct ok; [|destruct (pfloat L bs); discriminate].
   destruct (match bs with [] => false | c :: _ => c =? 45 end).
-  - destruct (uint2int_ovf f true); discriminate.
+  - destruct (uint2int_ovf f true); [destruct (pfloat L bs)|]; discriminate.
   - destruct (signedInteger D); [destruct (uint2int_ovf f false)|]; discriminate.
 Qed.
 
